@@ -25,6 +25,8 @@ SCHEMA = {
 }
 
 CH = "self._child_nodes"
+H = "self._head_node"
+T = "self._head_node._parent_node"
 
 
 def others_order_preserved(L):
@@ -126,6 +128,31 @@ CONTRACTS = [
         ND + ":Node.clear_child_nodes", types={}, requires="True", modifies=["self._child_nodes"],
         ensures={"empty": "length(%s) == 0" % CH},
     ),
+    Contract(
+        ED + ":Edge.invert", types={"update_bipartitions": "bool"},
+        # the only way Tree.reseed_at calls it: the tail of the edge is a parentless node (the current
+        # root, or the head of the edge inverted just before); node/edge pairing holds for both ends
+        requires=("not isnone({H}) and not isnone({T}) and isnone({T}._parent_node) and {H} != {T} "
+                  "and listinv({T}._child_nodes) and listinv({H}._child_nodes) and isin({H}, {T}._child_nodes) and not isin({T}, {H}._child_nodes) "
+                  "and {H}._edge == self and not isnone({T}._edge) and {T}._edge._head_node == {T} and {T}._edge != self "
+                  "and forall_ref('Node', lambda y: not (isin(y, {T}._child_nodes) and isin(y, {H}._child_nodes)))").format(H=H, T=T),
+        modifies=["{H}._parent_node".format(H=H), "{T}._parent_node".format(T=T), "{T}._child_nodes".format(T=T), "{H}._child_nodes".format(H=H),
+                  "Node.g_pos[*]", "self.length", "{T}._edge.length".format(T=T)],
+        allowed_raises=(),
+        ensures={
+            "head-becomes-parentless": "isnone(old({H})._parent_node)".format(H=H),
+            "tail-hangs-under-head": "old({T})._parent_node == old({H})".format(H=H, T=T),
+            "head-left-the-tail's-children": "list_minus({T}._child_nodes, old({H}))".format(H=H, T=T),
+            "tail-appended-to-head's-children": "list_plus({H}._child_nodes, old({T}))".format(H=H, T=T),
+            "list-invariants": "listinv(old({T})._child_nodes) and listinv(old({H})._child_nodes)".format(H=H, T=T),
+            "other-lists-untouched": "lists_frame('Node', {T}._child_nodes, {H}._child_nodes)".format(H=H, T=T),
+            # C07: the two lengths are exchanged, so the length labelling of the undirected edge set is preserved
+            "lengths-swapped": "eq(self.length, old({T}._edge.length)) and eq(old({T}._edge).length, old(self.length))".format(T=T),
+            "ghost-frame": "pos_frame({T}._child_nodes, {H}._child_nodes)".format(H=H, T=T),
+        },
+    ),
+    Contract(ED + ":Edge._get_head_node", types={"return": "opt ref:Node"}, requires="True", ensures={"head": "result == self._head_node"}),
+    Contract(ND + ":Node._get_edge_length", types={"return": "opt real"}, requires="not isnone(self._edge)", ensures={"len": "eq(result, self._edge.length)"}),
     Contract(ND + ":Node._get_edge", types={"return": "opt ref:Edge"}, requires="True", ensures={"edge": "result == self._edge"}),
     Contract(ND + ":Node._get_parent_node", types={"return": "opt ref:Node"}, requires="True", ensures={"parent": "result == self._parent_node"}),
 ]
@@ -200,6 +227,14 @@ def states(c):
                     if j is not None and j == i:
                         continue
                     yield {"self": nodes[i].edge, "node": None if j is None else nodes[j]}, {"Node": nodes}, "%s: n%d.edge.tail_node = %s on %s" % (c.name, i, "None" if j is None else "n%d" % j, shape)
+            elif cls == "Edge" and meth == "invert":
+                nodes = forest(shape)
+                for q, nd in enumerate(nodes):
+                    if q == 3:
+                        nd.edge.length = None
+                    else:
+                        nd.edge.length = float(q + 1)
+                yield {"self": nodes[i].edge, "update_bipartitions": False}, {"Node": nodes}, "%s: n%d.edge.invert() on %s" % (c.name, i, shape)
             elif cls == "Edge" and meth == "_get_tail_node":
                 nodes = forest(shape)
                 yield {"self": nodes[i].edge}, {"Node": nodes}, "%s: n%d.edge.tail_node on %s" % (c.name, i, shape)
